@@ -6,6 +6,7 @@ import Sgz.Model.Reblock
 import Sgz.Model.Writer
 import Sgz.Model.Window
 import Sgz.Model.Derived
+import Sgz.Model.Header
 /-!
 # Tie/Source — the model's arithmetic is the arithmetic of the source as it is now
 
@@ -295,5 +296,35 @@ theorem io_header_slots (N1 : Nat) (w : Window.Win) (b0 s i t : Nat) :
   constructor
   · simp only [Nat.add_assoc]
   · rfl
+
+/-! ### the fixed header words: `make_header` writes and the reader parses at the offsets of `Model/Header` -/
+
+/-- the writer's stores, field by field (the irregular branch writes the increments at the same offsets) -/
+theorem header_writer_offsets (f : Header.Fields) :
+    (Header.writes f).map (·.1) =
+      [Gen.w_header_blocks, Gen.w_n_samples, Gen.w_n_xl, Gen.w_n_il, Gen.w_z_start, Gen.w_xl0, Gen.w_il0, Gen.w_interval,
+       Gen.w_dxl, Gen.w_dil, Gen.w_rate, Gen.w_b0, Gen.w_b1, Gen.w_b2, Gen.w_data_blocks, Gen.w_array_bytes, Gen.w_n_arrays,
+       Gen.w_tracecount, Gen.w_version]
+    ∧ Gen.w_dxl_irregular = Gen.w_dxl ∧ Gen.w_dil_irregular = Gen.w_dil ∧ Gen.w_table = 980 := by
+  refine ⟨rfl, rfl, rfl, rfl⟩
+
+/-- the reader's loads, field by field -/
+theorem header_reader_offsets (h : Header.Bytes) :
+    let p := Header.parse h
+    p.nHeaderBlocks = Header.get32 h Gen.r_header_blocks ∧ p.nSamples = Header.get32 h Gen.r_n_samples
+    ∧ p.nXl = Header.get32 h Gen.r_n_xl ∧ p.nIl = Header.get32 h Gen.r_n_il
+    ∧ p.zStart = Header.toSigned (Header.get32 h Gen.r_z_start)
+    ∧ p.xl0 = Axes.wrapI32 (Header.get32 h Gen.r_xl0) ∧ p.il0 = Axes.wrapI32 (Header.get32 h Gen.r_il0)
+    ∧ p.interval = Header.toSigned (Header.get32 h Gen.r_interval)
+    ∧ p.dXl = Axes.wrapI32 (Header.get32 h Gen.r_dxl) ∧ p.dIl = Axes.wrapI32 (Header.get32 h Gen.r_dil)
+    ∧ p.q = Header.decodeRate (Header.toSigned (Header.get32 h Gen.r_rate))
+    ∧ p.b0 = Header.get32 h Gen.r_b0 ∧ p.b1 = Header.get32 h Gen.r_b1 ∧ p.b2 = Header.get32 h Gen.r_b2
+    ∧ p.dataBlocks = Header.get32 h Gen.r_data_blocks ∧ p.arrayBytes = Header.get32 h Gen.r_array_bytes
+    ∧ p.nArrays = Header.get32 h Gen.r_n_arrays ∧ p.tracecount = Header.get32 h Gen.r_tracecount
+    ∧ p.version = Header.get32 h Gen.r_version := by
+  refine ⟨rfl, rfl, rfl, rfl, rfl, rfl, rfl, rfl, rfl, rfl, rfl, rfl, rfl, rfl, rfl, rfl, rfl, rfl, rfl⟩
+
+/-- bytes of one header array as the 3D converter states them -/
+theorem header_array_bytes (nIl nXl : Nat) : Gen.w_array_bytes_value nIl nXl = nXl * nIl * 32 / 8 := rfl
 
 end Sgz.Tie
